@@ -220,12 +220,53 @@ def work_plane(task):
     return acc
 
 
+def work_instances(task):
+    """many projection objects used one after the other in ONE process (they share the module-level frame): every instance must give
+    bit-identical results for the same points, on all 240 triangle pieces (direct and reflected)"""
+    Proj, _ = _lib()
+    acc = common.Acc()
+    n_inst = task
+    pts = []
+    for f in range(12):
+        for tri in range(10):
+            g = (tri + 0.5) * fp.A36
+            for rho in (0.4 * fp.D_EDGE, 1.3 * fp.D_EDGE):
+                x, y = rho * math.cos(g), rho * math.sin(g)
+                if fp.in_domain(x, y, 1e-6):
+                    pts.append((x, y, f))
+    first = None
+    for i in range(n_inst):
+        proj = Proj()
+        vals = []
+        for x, y, f in pts:
+            acc.n['evaluations'] += 1
+            acc.strata['instances'] += 1
+            try:
+                s_ = proj.inverse((x, y), f)
+                q = proj.forward(s_, f)
+                vals.append((s_, q))
+                if not (math.hypot(q[0] - x, q[1] - y) <= TOL):
+                    acc.violation(f'c13:instance{i}:roundtrip:{x!r},{y!r}:f{f}', f'projection object #{i + 1} of this process: face point {(x, y)!r} on face {f} comes back as {q!r}', {'kind': 'instances', 'n': n_inst})
+                    return acc
+            except Exception as e:
+                acc.violation(f'c13:instance:raises:{type(e).__name__}', f'projection object #{i + 1} created in one process raised {type(e).__name__}: {e} for face point {(x, y)!r} on face {f}', {'kind': 'instances', 'n': n_inst})
+                return acc
+        if first is None:
+            first = vals
+        elif vals != first:
+            acc.violation(f'c13:instance{i}:differs', f'projection object #{i + 1} returns different values than the first object for the same points', {'kind': 'instances', 'n': n_inst})
+            return acc
+    acc.n['nontrivial'] += len(pts)
+    return acc
+
+
 def run(tier, t0):
     acc = common.Acc()
     n = 200000 if tier == 'quick' else 1000000
     tasks = [(work_dirs, ('fib', n, lo, min(lo + 2500, n))) for lo in range(0, n, 2500)]
     tasks += [(work_dirs, ('frame', i, 6 if tier == 'quick' else 12)) for i in range(62)]
     tasks += [(work_plane, (f, 240 if tier == 'quick' else 720)) for f in range(12)]
+    tasks += [(work_instances, 20 if tier == 'quick' else 60)]
     tasks = common.rotate(tasks, common.seed())
     for part in common.pmap(_dispatch, tasks):
         acc.merge(part)
@@ -248,6 +289,9 @@ def _dispatch(t):
 def replay(case):
     Proj, _ = _lib()
     acc = common.Acc()
+    if case['kind'] == 'instances':
+        acc = work_instances(case['n'])
+        return [(k, w) for k, w, _ in acc.violations]
     if case['kind'] == 'dir':
         check_dir(acc, Proj(), tuple(case['v']), 'replay')
     else:
